@@ -480,8 +480,21 @@ func (p *Posix) DeleteBucket(_ context.Context, bucket string) error {
 	}
 
 	verifhook.Point("rmbucket.afterEmptyCheck")
-	// Remove the bucket
-	err = os.RemoveAll(bucket)
+	// Remove the bucket. Only the temp directory is removed recursively,
+	// the bucket directory itself is removed with rmdir, which fails if
+	// an object was created after the emptiness check: an upload that
+	// was acknowledged meanwhile is never removed with the bucket
+	err = os.RemoveAll(filepath.Join(bucket, metaTmpDir))
+	if err != nil {
+		return fmt.Errorf("remove bucket temp dir: %w", err)
+	}
+	err = os.Remove(bucket)
+	if errors.Is(err, syscall.ENOTEMPTY) || errors.Is(err, syscall.EEXIST) {
+		return s3err.GetAPIError(s3err.ErrBucketNotEmpty)
+	}
+	if errors.Is(err, fs.ErrNotExist) {
+		return s3err.GetAPIError(s3err.ErrNoSuchBucket)
+	}
 	if err != nil {
 		return fmt.Errorf("remove bucket: %w", err)
 	}
